@@ -8,6 +8,7 @@ import (
 	"encoding/json"
 	"fmt"
 	"net"
+	"os"
 	"net/textproto"
 	"reflect"
 	"sort"
@@ -300,10 +301,40 @@ func (g *gen) cfgCase(svc map[string]interface{}, stream string) {
 			lowTbl = append(lowTbl, emit.Pair(emit.Str(l), emit.Str(ll)))
 		}
 	}
-	term := emit.App("CCfg", emit.List(hostTbl), emit.List(lowTbl), m.coq(), o.term)
+	// which query_path files os.ReadFile can read right now (the model's `readable`)
+	fileSet := map[string]bool{}
+	for _, e := range m.Endpoints {
+		for _, b := range e.Backend {
+			if sec, ok := b.Extra[nsGraphQL].(map[string]interface{}); ok {
+				if qp, ok := sec["query_path"].(string); ok && qp != "" {
+					if _, err := os.ReadFile(qp); err == nil {
+						fileSet[qp] = true
+					} else {
+						fileSet[qp] = false
+					}
+				}
+			}
+		}
+	}
+	var fps, readableFiles []string
+	for fp := range fileSet {
+		fps = append(fps, fp)
+	}
+	sort.Strings(fps)
+	fileJS := map[string]interface{}{}
+	for _, fp := range fps {
+		fileJS[fp] = fileSet[fp]
+		if fileSet[fp] {
+			readableFiles = append(readableFiles, fp)
+			g.w.Count("has:query_path-readable")
+		} else {
+			g.w.Count("has:query_path-unreadable")
+		}
+	}
+	term := emit.App("CCfg", emit.List(hostTbl), emit.List(lowTbl), emit.StrList(readableFiles), m.coq(), o.term)
 	var cfgJS interface{}
 	json.Unmarshal(data, &cfgJS)
-	js := map[string]interface{}{"stream": stream, "config": cfgJS, "config_json": string(data), "clean_host": hostJS, "observed": o.js}
+	js := map[string]interface{}{"stream": stream, "config": cfgJS, "config_json": string(data), "clean_host": hostJS, "query_path_readable": fileJS, "observed": o.js}
 	g.w.Count("stream:" + stream)
 	g.w.Count("outcome:" + o.kind)
 	if o.kind == "err" {
@@ -381,6 +412,21 @@ var encodings = []string{"", "json", "JSON", "no-op", "NO-OP", "No-Op", "safejso
 var headers = []string{"X-a", "content-type", "*", "x-B-c", "A b", "", "ü-x", "x_y-z", "ACCEPT", "a--b", "-a", "x-1a", "Host"}
 var durations = []string{"", "1s", "0", "0s", "-1s", "abc", "1500ms", "2h", "1", "100ns"}
 var gqlValues = []string{"", "{}", "{", "}", "{a}", "{aB}", "{-}", "{{}", "{id}", "x", "{a", "a}", "{ü}", "{}}", "{ab", "}{"}
+// query_path values: empty, a readable file, a missing file, a directory, a missing directory
+const filesDir = "/tmp/verif-c17-files"
+
+var qpaths = []string{"", filesDir + "/q.graphql", filesDir + "/missing.graphql", filesDir + "/adir", "/nonexistent/verif-c17/q.graphql"}
+
+func prepareFiles() {
+	if err := os.MkdirAll(filesDir+"/adir", 0o755); err != nil {
+		panic(err)
+	}
+	if err := os.WriteFile(filesDir+"/q.graphql", []byte("query($a:ID){x(a:$a)}\n"), 0o644); err != nil {
+		panic(err)
+	}
+	os.Remove(filesDir + "/missing.graphql")
+}
+
 var sds = []string{"", "", "", "static", "dns", "DNS", "etcd"}
 
 func strsUpTo(alpha []string, n int) []string {
@@ -448,8 +494,11 @@ func graphqlSection(r *rng.R, illTyped bool) interface{} {
 	}
 	maybe(r, g, "method", pick(r, methods))
 	maybe(r, g, "operationName", pick(r, []string{"", "op"}))
-	if r.Chance(1, 12) {
-		g["query_path"] = pick(r, []string{"", "/nonexistent/verif-c17/q.graphql"})
+	if r.Chance(1, 4) {
+		g["query_path"] = pick(r, qpaths)
+		if r.Bool() {
+			delete(g, "query")
+		}
 	}
 	if illTyped {
 		switch r.Intn(5) {
@@ -799,6 +848,7 @@ func main() {
 	dnssrv.TTL = 1000 * time.Hour
 	dnssrv.Register()
 
+	prepareFiles()
 	r := rng.New(cfg.Seed)
 	g := &gen{w: out.NewWriter(cfg, "Verif.Corr.C17", 300), uri: config.URI(config.RoutingPattern)}
 	thorough := cfg.Thorough()
@@ -837,6 +887,11 @@ func main() {
 		with(one(ep("/x/{.Foo}"), be("/a/{{.Foo}}", "http://ok")), "disable_rest", true),
 		with(one(ep("/{a.b}/{c:d}"), be("/{c:d}/{a.b}/{a.b}", "http://ok")), "disable_rest", true),
 		with(one(ep("/a"), be("/b", "http://ok")), "listen_ip", "999.1.1.1"),
+		// GraphQL sections whose options cannot be read (GetOptions fails): the stack is built without the stage
+		one(ep("/a/{id}"), with(be("/g/{id}", "http://ok"), "extra_config", map[string]interface{}{nsGraphQL: map[string]interface{}{"type": "query", "query_path": filesDir + "/missing.graphql", "variables": map[string]interface{}{"a": "{id}"}}})),
+		one(ep("/a/{id}"), with(be("/g/{id}", "http://ok"), "extra_config", map[string]interface{}{nsGraphQL: map[string]interface{}{"type": "mutation", "query_path": filesDir + "/adir"}})),
+		one(ep("/a/{id}"), with(be("/g/{id}", "http://ok"), "extra_config", map[string]interface{}{nsGraphQL: map[string]interface{}{"type": "query", "query_path": filesDir + "/q.graphql", "variables": map[string]interface{}{"a": "{}", "b": ""}}})),
+		one(ep("/a/{id}"), with(be("/g/{id}", "http://ok"), "extra_config", map[string]interface{}{nsGraphQL: map[string]interface{}{"type": 5.0, "query": "{ q }"}}), with(be("/h", "http://ok"), "extra_config", map[string]interface{}{nsGraphQL: "not an object"})),
 		// a backend placeholder named like an allowed query string / header is NOT declared:
 		// the routers only put path params into Request.Params
 		one(with(ep("/s/{cat}"), "input_query_strings", []interface{}{"page"}), be("/s/{cat}/{page}", "http://ok")),
@@ -904,6 +959,41 @@ func main() {
 		for _, d2 := range durations {
 			for cc := -1; cc <= 2; cc++ {
 				g.cfgCase(with(one(with(ep("/a"), "timeout", d2, "concurrent_calls", cc, "cache_ttl", d1), be("/b", "http://ok")), "timeout", d1, "cache_ttl", d2), "exhaustive:durations")
+			}
+		}
+	}
+	// (i) GraphQL options in an otherwise valid configuration: query_path x type x method x variables
+	// (x inline query in the thorough tier; alternating in quick)
+	gTypes := []interface{}{"query", "mutation", "Query", "", "x", 5.0}
+	gMethods := []interface{}{nil, "get", 5.0}
+	if thorough {
+		gMethods = []interface{}{nil, "get", "POST", "ü", 5.0}
+	}
+	gVars := []interface{}{nil, map[string]interface{}{"a": "{id}"}, map[string]interface{}{"a": "", "b": "{}"}, "str"}
+	k := 0
+	for _, qp := range qpaths {
+		for _, ty := range gTypes {
+			for _, me := range gMethods {
+				for _, va := range gVars {
+					inl := []bool{k%2 == 0}
+					if thorough {
+						inl = []bool{false, true}
+					}
+					k++
+					for _, withQuery := range inl {
+						sec := map[string]interface{}{"type": ty, "query_path": qp}
+						if me != nil {
+							sec["method"] = me
+						}
+						if va != nil {
+							sec["variables"] = va
+						}
+						if withQuery {
+							sec["query"] = "{ q }"
+						}
+						g.cfgCase(one(ep("/a/{id}"), with(be("/g/{id}", "http://ok"), "extra_config", map[string]interface{}{nsGraphQL: sec})), "exhaustive:graphql-options")
+					}
+				}
 			}
 		}
 	}
@@ -1009,5 +1099,5 @@ func main() {
 	}
 
 	g.w.Meta["compared"] = "outcome class (ok / error / panic) of Parse; per endpoint: method, timeout, concurrent_calls, input_headers, outcome class of DefaultFactory.New; per backend: hosts and url keys (as multisets), method, url_pattern, decoder, timeout, concurrent_calls, input_headers"
-	g.w.Close("corpus of past failures; exhaustive small scope (GraphQL variable values over {,},a up to length 3 (thorough 4); endpoint path x backend pattern x disable_rest over the path pool (quick: a seed-dependent half); host pool x sanitiser switch x position; output encodings x 0..3 backends; durations x durations x counts; versions -1..5); scanners re-validated against the package's compiled regular expressions / textproto / x/text on the pools and on random strings; path params x input_query_strings x input_headers x backend placeholders over a b q z; two endpoints in every order; structured random configurations (40% from mostly-valid pools, 20% with backend placeholders drawn from the endpoint's path params / query strings / headers / other endpoints' params / fresh names, 30% any strings, 10% with ill-typed extra_config values); malformed JSON. nontrivial = rejected, or has a placeholder, or has an extra_config section", true)
+	g.w.Close("corpus of past failures; exhaustive small scope (GraphQL variable values over {,},a up to length 3 (thorough 4); endpoint path x backend pattern x disable_rest over the path pool (quick: a seed-dependent half); host pool x sanitiser switch x position; output encodings x 0..3 backends; durations x durations x counts; versions -1..5; GraphQL options query_path {empty, readable file, missing file, directory, missing directory} x type x method x variables); scanners re-validated against the package's compiled regular expressions / textproto / x/text on the pools and on random strings; path params x input_query_strings x input_headers x backend placeholders over a b q z; two endpoints in every order; structured random configurations (40% from mostly-valid pools, 20% with backend placeholders drawn from the endpoint's path params / query strings / headers / other endpoints' params / fresh names, 30% any strings, 10% with ill-typed extra_config values); malformed JSON. nontrivial = rejected, or has a placeholder, or has an extra_config section", true)
 }
